@@ -111,13 +111,20 @@ func C15(ctx *core.Ctx) {
 	}
 	var loop *ssa.Function
 	var spawn *ssa.Go
-	for _, c := range ssax.Calls(open) {
-		if g, ok := c.Instr.(*ssa.Go); ok {
-			for _, t := range r.Resolve(c) {
-				loop, spawn = t, g
+	spawner := open // Open itself, or the unexported helper of the transport it starts the loop through
+	for _, g0 := range localCone(open, 1) {
+		if g0 != open && (g0.Object() == nil || g0.Object().Exported()) {
+			continue
+		}
+		for _, c := range ssax.Calls(g0) {
+			if g, ok := c.Instr.(*ssa.Go); ok {
+				for _, t := range r.Resolve(c) {
+					loop, spawn, spawner = t, g, g0
+				}
 			}
 		}
 	}
+
 	if loop == nil {
 		ctx.Unresolved("C15.R2", "reader loop", "Open spawns no goroutine")
 		return
@@ -147,6 +154,10 @@ func C15(ctx *core.Ctx) {
 			paramOf[a] = lp
 		}
 	}
+	closeCone := map[*ssa.Function]bool{} // close(cause) takes its own token back on a failed close: not a poll of the loop
+	for _, g := range localCone(closeFn, 2) {
+		closeCone[g] = true
+	}
 	for _, g := range localCone(loop, 2) {
 		if g == loop {
 			continue
@@ -154,6 +165,9 @@ func C15(ctx *core.Ctx) {
 		for _, rs := range RecvSites(g) {
 			if lp, ok := paramOf[ssax.Strip(rs.Chan)]; ok {
 				rs.Chan = lp
+				recvs = append(recvs, rs)
+			} else if g != closeFn && !closeCone[g] && g.Object() != nil && !g.Object().Exported() && isSignalChan(rs.Chan.Type()) && rs.NonBlocking {
+				// a helper of the loop polling a signal channel it was not handed by the loop (a field)
 				recvs = append(recvs, rs)
 			}
 		}
@@ -175,10 +189,10 @@ func C15(ctx *core.Ctx) {
 			for i, lp := range loop.Params {
 				if lp == p && i < len(spawn.Call.Args) {
 					arg := resolveFieldLoad(spawn.Call.Args[i])
-					if mc, ok := arg.(*ssa.MakeChan); ok && mc.Parent() == open {
+					if mc, ok := arg.(*ssa.MakeChan); ok && mc.Parent() == spawner {
 						// the same channel is what close() will signal on: stored to the signal field before the spawn
 						stored := false
-						ssax.Instrs(open, func(in ssa.Instruction) {
+						ssax.Instrs(spawner, func(in ssa.Instruction) {
 							if st, ok := in.(*ssa.Store); ok && ssax.Strip(st.Val) == ssa.Value(mc) && fieldNameOfAddr(st.Addr) == sigField && ssax.Dominates(in, spawn) {
 								stored = true
 							}
@@ -514,6 +528,52 @@ func c15Monitor(ctx *core.Ctx, r *RT) {
 	if ar := r.Fn("C15.R6", "(*monitorRunner).attemptReopen"); ar != nil {
 		an := ssax.Name(ar)
 		n := 0
+		// the report may sit in a helper of the runner that attemptReopen calls on a failed attempt
+		for _, g := range localCone(ar, 1) {
+			if g == ar || g.Object() == nil || g.Object().Exported() {
+				continue
+			}
+			for _, c := range ssax.Calls(g) {
+				if c.Method == nil || c.Method.Name() != "OnReopenFailed" {
+					continue
+				}
+				n++
+				cnt := ssax.Strip(c.Args()[1])
+				ok := false
+				detail := "the attempt count passed to OnReopenFailed is not a per-call counter starting at 0 and incremented once per failed Open (state shared across outages makes the monitor give up early or never)"
+				// a counter kept in the runner is per outage only if attemptReopen resets it before its loop
+				root := cnt
+				if bo, isAdd := root.(*ssa.BinOp); isAdd && bo.Op == token.ADD {
+					root = ssax.Strip(bo.X)
+				}
+				if q, isParam := cnt.(*ssa.Parameter); isParam {
+					// handed the count by attemptReopen: judge the argument there
+					for _, c2 := range ssax.Calls(ar) {
+						if c2.Static != g {
+							continue
+						}
+						for i, gp := range g.Params {
+							if gp == q && i < len(c2.Common.Args) {
+								ok = perCallCounter(ssax.Strip(c2.Common.Args[i]))
+							}
+						}
+					}
+				}
+				if fld := fieldNameOfValue(root); fld != "" {
+					ssax.Instrs(ar, func(in ssa.Instruction) {
+						if st, isSt := in.(*ssa.Store); isSt && fieldNameOfAddr(st.Addr) == fld && !inCycle(in) {
+							if z, isZ := ssax.ConstInt(st.Val); isZ && z == 0 {
+								ok = true
+							}
+						}
+					})
+					if !ok {
+						detail = "the attempt count passed to OnReopenFailed is kept in the field " + fld + " of the runner and never reset when a new outage starts: the MaxReopenAttempts budget is shared by all outages of the transport's life, so the monitor gives up early on a later outage"
+					}
+				}
+				ctx.Check(ok, "C15.R6", an+" › attempts counted per outage", r.IPos(c.Instr), "counter reset at the start of attemptReopen", detail)
+			}
+		}
 		for _, c := range ssax.Calls(ar) {
 			if c.Method == nil || c.Method.Name() != "OnReopenFailed" {
 				continue
@@ -883,4 +943,29 @@ func underEOFTest(b *ssa.BasicBlock) bool {
 		}
 	}
 	return false
+}
+
+// perCallCounter: v = φ+1 with φ = φ(0, v): a counter local to the call,
+// starting at 0 and incremented once per trip.
+func perCallCounter(v ssa.Value) bool {
+	bo, isAdd := v.(*ssa.BinOp)
+	if !isAdd || bo.Op != token.ADD {
+		return false
+	}
+	if one, k := ssax.ConstInt(bo.Y); !k || one != 1 {
+		return false
+	}
+	phi, isPhi := bo.X.(*ssa.Phi)
+	if !isPhi {
+		return false
+	}
+	zero, back := false, false
+	for _, e := range phi.Edges {
+		if z, k := ssax.ConstInt(e); k && z == 0 {
+			zero = true
+		} else if ssax.Strip(e) == ssa.Value(bo) {
+			back = true
+		}
+	}
+	return zero && back && len(phi.Edges) == 2
 }
